@@ -80,6 +80,24 @@ def run_probe(lifted, scratch):
         dis = dis or (exp["stdout_lacks"] in p.stdout)
     if exp.get("is_error") is True:
         dis = dis or ("ERR:" not in p.stdout)
+    sim = lifted.get("simulate")
+    if sim and p.stdout.startswith("OK"):
+        # execute the code the real compiler emitted on the 6502 interpreter, from the counterexample's initial state
+        from .sim6502 import Sim
+        m = Sim(p.stdout)
+        for k, v in sim.get("init", {}).items():
+            m.poke_sym(k, v, 1)
+        for k, v in sim.get("init16", {}).items():
+            m.poke_sym(k, v, 2)
+        m.x = sim.get("x", 0); m.y = sim.get("y", 0)
+        st = m.run(sim.get("func", "main"))
+        got = {k: m.peek_sym(k, 1) for k in sim.get("expect", {})}
+        got.update({k: m.peek_sym(k, 2) for k in sim.get("expect16", {})})
+        want = dict(sim.get("expect", {})); want.update(sim.get("expect16", {}))
+        res["simulation"] = {"status": st, "got": got, "want": want}
+        dis = dis or (got != want) or st not in ("end", "rts")
+    elif sim and "ERR:" in p.stdout and not exp.get("is_error"):
+        res["simulation"] = {"status": "compile error", "stdout": p.stdout[:300]}
     res["disagrees"] = dis
     return res
 
